@@ -1,5 +1,6 @@
 import Litestream.Model.LtxName
 import Litestream.Lemmas.V3Name
+import Litestream.Gen.Names
 /-! C08 — the naming and listing layer under the restore planner (`ltx.FormatFilename` /
 `ParseFilename`, file client `LTXFiles`).  `Props/C08.lean` plans over listings of (level, min, max);
 these theorems say that the file client's listing is a faithful, ordered image of the files on
@@ -139,6 +140,13 @@ theorem ltx_tmp_not_listed (mn mx : Nat) : parseLtx (fmtLtx mn mx ++ ".tmp".toLi
   rw [if_neg]
   intro hc
   omega
+
+/-- (T) regenerated from file/replica_client.go: `LTXFiles` skips an entry only when its name does not
+parse or its MinTXID is below `seek` (in particular never by size, type or age), parses with
+`ltx.ParseFilename` and hands the slice to `ltx.NewFileInfoSliceIterator`, which sorts — what `listLtx` models. -/
+theorem gen_ltx_listing_shape :
+    Gen.skipsLTXFiles = ["err != nil", "minTXID < seek"] ∧ Gen.parseLTXFiles = "ltx.ParseFilename;" ∧
+    Gen.sortLTXFiles = "ltx.NewFileInfoSliceIterator(infos)" := by decide
 
 /-- Non-vacuity. -/
 example : listLtx ["0000000000000003-0000000000000003.ltx".toList, "0000000000000001-0000000000000002.ltx".toList,
